@@ -82,6 +82,47 @@ inductive MemberRule (E : FEnv) : MemberJudgement → Prop
 /-- field reference `i` is bound to `cs` (head first) -/
 def PathBound (E : FEnv) (i : Nat) (cs : List Path) : Prop := MemberRule E (.path i cs)
 
+/-! The ways a field path can be wrong (language reference: only structures have members; an
+array has none; the member must exist in the structure), with the error each one is answered
+with.  `prev` is the path element that named the definition `o` (errors about `o` are located
+there). -/
+
+inductive MemberFailJudgement
+  | phys (o : Obj) (prev : PathElem) (e : Err)
+  | mem (o : Obj) (prev : PathElem) (rs : List PathElem) (e : Err)
+  | path (i : Nat) (e : Err)
+
+inductive MemberFails (E : FEnv) : MemberFailJudgement → Prop
+  /-- a parameter, a module, a type, an enum value has no members -/
+  | physNonField {o prev} : (∀ sh, o.kind ≠ .field sh) →
+      MemberFails E (.phys o prev (.noncomposite prev.name prev.rloc))
+  /-- a virtual field that is not a plain renaming has no members -/
+  | physOther {o prev} : o.kind = .field .virtOther →
+      MemberFails E (.phys o prev (.noncomposite prev.name prev.rloc))
+  | physAlias {o i cs c o' prev e} : o.kind = .field (.virtAlias i) → MemberRule E (.path i cs) →
+      cs.getLast? = some c → findObject E.objs c = some o' → MemberFails E (.phys o' prev e) →
+      MemberFails E (.phys o prev e)
+  | memPhys {o prev r rest e} : MemberFails E (.phys o prev e) →
+      MemberFails E (.mem o prev (r :: rest) e)
+  | memArray {o p prev r rest} : MemberRule E (.phys o p) → p.kind = .field .array →
+      MemberFails E (.mem o prev (r :: rest) (.arrayMember prev.name prev.rloc))
+  | memMissing {o p t tc prev r rest} : MemberRule E (.phys o p) → p.kind = .field (.atomic t) →
+      E.typeCanon t = some tc → findObject E.objs (tc ++ [r.name]) = none →
+      MemberFails E (.mem o prev (r :: rest) (.missing r.name r.nloc))
+  | memLater {o p t tc prev r rest o' e} : MemberRule E (.phys o p) →
+      p.kind = .field (.atomic t) → E.typeCanon t = some tc →
+      findObject E.objs (tc ++ [r.name]) = some o' → MemberFails E (.mem o' r rest e) →
+      MemberFails E (.mem o prev (r :: rest) e)
+  | pathNoHead {i fr h p0 r rest} : E.frefs i = some fr → E.headCanon i = some h →
+      fr.path = p0 :: r :: rest → findObject E.objs h = none →
+      MemberFails E (.path i (.noncomposite p0.name p0.rloc))
+  | pathMem {i fr h p0 r rest o e} : E.frefs i = some fr → E.headCanon i = some h →
+      fr.path = p0 :: r :: rest → findObject E.objs h = some o →
+      MemberFails E (.mem o p0 (r :: rest) e) → MemberFails E (.path i e)
+
+/-- field reference `i` is rejected with error `e` -/
+def PathRejected (E : FEnv) (i : Nat) (e : Err) : Prop := MemberFails E (.path i e)
+
 /-- What `_set_visible_scopes_for_module` must be given for the visible scopes to be pairwise
 distinct: the anonymously imported files (in practice: just the prelude) are distinct files and
 none of them is the module itself.  (A condition on the *input* — the import list —; the
